@@ -377,7 +377,11 @@ func runC13(r *vf.Runner) {
 		for _, kind := range []string{"cache", "cachepartial"} {
 			for _, pos := range []string{"middle", "after-shuffle"} {
 				c := c13case{Conf: conf, Kind: kind, Position: pos, Shards: 2, Rows: 130, FailAt: -1, UserFail: -1, Seed: 11}
-				n := c13traceOps(c)
+				// The fault space is a fixed superset of the ordinals a fault-free trace shows (about
+				// 90 operations, 82 of them writes, for two shards); ordinals beyond the actual trace
+				// never fire and are counted as such. (A per-process trace would make the case list
+				// differ between child batches.)
+				n := 96
 				step := 1
 				if r.Quick() {
 					step = 3
@@ -402,10 +406,9 @@ func runC13(r *vf.Runner) {
 				for _, shards := range []int{1, 2} {
 					c1 := c
 					c1.Shards = shards
-					c13traceOps(c1)
-					w := c13traceWrites[fmt.Sprintf("%s/%s/%s/%d", c1.Conf, c1.Kind, c1.Position, c1.Shards)]
+					w := 44 * shards
 					for k := 0; k < w; k++ {
-						if r.Quick() && k%5 != 0 && k < w-4 {
+						if r.Quick() && k%5 != 0 && (k < 41*shards-6 || k > 41*shards) {
 							continue
 						}
 						cc := c1
